@@ -3,6 +3,7 @@ import CasbinModel.Lemmas.Csv
 import CasbinModel.Lemmas.Mirror
 import CasbinModel.Lemmas.MirrorBatch
 import CasbinModel.Lemmas.SaveMirror
+import CasbinModel.Props.C04
 /-!
 # C09 — Stored policy and in-memory policy stay identical
 
@@ -1040,5 +1041,263 @@ theorem demo_writable : Writable demoStore := by
       rcases hf with rfl | rfl <;> decide
 example : Canon demoStore := ⟨by decide, by decide, by decide, by decide⟩
 example : (splitLines "p, alice,\"a,b\"\n".toList).filterMap lineRecord = [("p", "p", ["alice", "a,b"])] := by decide +kernel
+
+
+/-! ### `save_policy` inside the auto-save history (memory adapter) -/
+
+theorem updDef_keys (ds : List PolDef) (pt : String) (f : PolDef → PolDef) (hf : ∀ d, (f d).key = d.key) :
+    (updDef ds pt f).map (·.key) = ds.map (·.key) := by
+  induction ds with
+  | nil => rfl
+  | cons d rest ih =>
+    simp only [updDef, List.map_cons] at ih ⊢
+    rw [ih]
+    by_cases hk : d.key = pt
+    · simp only [hk, if_true]; rw [hf d, hk]
+    · simp only [hk, if_false]
+
+/-- the names of the definitions, per section -/
+def keysOf (s : Store) : List String × List String := (s.p.map (·.key), s.g.map (·.key))
+
+theorem update_keys (s : Store) (sec pt : String) (f : PolDef → PolDef) (hf : ∀ d, (f d).key = d.key) :
+    keysOf (s.update sec pt f) = keysOf s := by
+  unfold Store.update Store.setSec keysOf
+  by_cases h1 : sec = "p"
+  · subst h1
+    simp only [if_true, Store.sec]
+    rw [updDef_keys _ _ _ hf]
+  · simp only [h1, if_false]
+    by_cases h2 : sec = "g"
+    · subst h2
+      have : ¬ ("g" : String) = "p" := by decide
+      simp only [if_true, Store.sec, this, if_false]
+      rw [updDef_keys _ _ _ hf]
+    · simp only [h2, if_false]
+
+theorem addPolicy_keys (s : Store) (sec pt : String) (rule : Rule) : keysOf (s.addPolicy sec pt rule).1 = keysOf s := by
+  unfold Store.addPolicy
+  cases s.find sec pt with
+  | none => rfl
+  | some d => exact update_keys _ _ _ _ (fun _ => rfl)
+
+theorem removePolicy_keys (s : Store) (sec pt : String) (rule : Rule) : keysOf (s.removePolicy sec pt rule).1 = keysOf s := by
+  unfold Store.removePolicy
+  cases s.find sec pt with
+  | none => rfl
+  | some d => exact update_keys _ _ _ _ (fun _ => rfl)
+
+theorem addPolicies_keys (s : Store) (sec pt : String) (rules : List Rule) : keysOf (s.addPolicies sec pt rules).1 = keysOf s := by
+  unfold Store.addPolicies
+  cases s.find sec pt with
+  | none => rfl
+  | some d =>
+    simp only []
+    split
+    · rfl
+    · exact update_keys _ _ _ _ (fun _ => rfl)
+
+theorem removePolicies_keys (s : Store) (sec pt : String) (rules : List Rule) : keysOf (s.removePolicies sec pt rules).1 = keysOf s := by
+  unfold Store.removePolicies
+  cases s.find sec pt with
+  | none => rfl
+  | some d =>
+    simp only []
+    split
+    · rfl
+    · exact update_keys _ _ _ _ (fun _ => rfl)
+
+theorem removeFiltered_keys (s : Store) (sec pt : String) (idx : Nat) (vals : List String) :
+    keysOf (s.removeFiltered sec pt idx vals).1 = keysOf s := by
+  unfold Store.removeFiltered
+  split
+  · rfl
+  · cases s.find sec pt with
+    | none => rfl
+    | some d =>
+      simp only []
+      split
+      · rfl
+      · exact update_keys _ _ _ _ (fun _ => rfl)
+
+/-- `Canon` speaks about the names of the definitions only -/
+theorem canon_congr (s s' : Store) (h : keysOf s' = keysOf s) (hc : Canon s) : Canon s' := by
+  have hp : s'.p.map (·.key) = s.p.map (·.key) := congrArg Prod.fst h
+  have hg : s'.g.map (·.key) = s.g.map (·.key) := congrArg Prod.snd h
+  have tag : ∀ (ds ds' : List PolDef) (t : String), ds'.map (·.key) = ds.map (·.key) → (∀ d ∈ ds, tagOf d = t) →
+      ∀ d ∈ ds', tagOf d = t := by
+    intro ds ds' t hk hall d hd
+    have : d.key ∈ ds.map (·.key) := by rw [← hk]; exact List.mem_map.mpr ⟨d, hd, rfl⟩
+    obtain ⟨d0, hd0, hkey⟩ := List.mem_map.mp this
+    have := hall d0 hd0
+    unfold tagOf at this ⊢
+    rw [← hkey]; exact this
+  exact ⟨tag s.p s'.p "p" hp hc.ptag, tag s.g s'.g "g" hg hc.gtag, by rw [hp]; exact hc.pkeys, by rw [hg]; exact hc.gkeys⟩
+
+/-- what the auto-save history with saves keeps: the mirror over a memory adapter that accepts everything, the adapter
+unfiltered, the store in the shape `save_policy` relies on and duplicate-free -/
+structure SaveOk (e : Enforcer) : Prop where
+  mem : MemOk e
+  unfiltered : e.adapter.filtered = false
+  canon : Canon e.store
+  wf : e.store.WF
+
+theorem store_step_cases (e : Enforcer) (op : SOp) (has : e.autoSave = true) :
+    (op.apply e).store = e.store ∨ ∃ mop : C04.MOp, (op.apply e).store = (C04.step e.store mop).1 ∧
+      keysOf (C04.step e.store mop).1 = keysOf e.store := by
+  cases op with
+  | add sec pt rule =>
+    have := (addPolicy_fields e sec pt rule has).2
+    simp only [SOp.apply]
+    split at this
+    · exact Or.inr ⟨.add sec pt rule, this, addPolicy_keys _ _ _ _⟩
+    · exact Or.inl this
+  | remove sec pt rule =>
+    have := (removePolicy_fields e sec pt rule has).2
+    simp only [SOp.apply]
+    split at this
+    · exact Or.inr ⟨.remove sec pt rule, this, removePolicy_keys _ _ _ _⟩
+    · exact Or.inl this
+  | addMany sec pt rules =>
+    have := (addPolicies_fields e sec pt rules has).2
+    simp only [SOp.apply]
+    split at this
+    · exact Or.inr ⟨.addMany sec pt rules, this, addPolicies_keys _ _ _ _⟩
+    · exact Or.inl this
+  | removeMany sec pt rules =>
+    have := (removePolicies_fields e sec pt rules has).2
+    simp only [SOp.apply]
+    split at this
+    · exact Or.inr ⟨.removeMany sec pt rules, this, removePolicies_keys _ _ _ _⟩
+    · exact Or.inl this
+  | removeFiltered sec pt idx vals =>
+    have := (removeFiltered_fields e sec pt idx vals has).2
+    simp only [SOp.apply]
+    split at this
+    · exact Or.inr ⟨.removeFiltered sec pt idx vals, this, removeFiltered_keys _ _ _ _ _⟩
+    · exact Or.inl this
+
+theorem adapter_step_filtered (e : Enforcer) (op : SOp) (has : e.autoSave = true) (hk : e.adapter.kind = .memory)
+    (hp : e.adapter.plan = []) : (op.apply e).adapter.filtered = e.adapter.filtered := by
+  cases op with
+  | add sec pt rule =>
+    simp only [SOp.apply]; rw [(addPolicy_fields e sec pt rule has).1]
+    simp only [AdapterSt.addPolicy, AdapterSt.nextFault, hp, hk]
+  | remove sec pt rule =>
+    simp only [SOp.apply]; rw [(removePolicy_fields e sec pt rule has).1]
+    simp only [AdapterSt.removePolicy, AdapterSt.nextFault, hp, hk]
+  | addMany sec pt rules =>
+    simp only [SOp.apply]; rw [(addPolicies_fields e sec pt rules has).1]
+    simp only [AdapterSt.addPolicies, AdapterSt.nextFault, hp, hk]
+    split <;> rfl
+  | removeMany sec pt rules =>
+    simp only [SOp.apply]; rw [(removePolicies_fields e sec pt rules has).1]
+    simp only [AdapterSt.removePolicies, AdapterSt.nextFault, hp, hk]
+    split <;> rfl
+  | removeFiltered sec pt idx vals =>
+    simp only [SOp.apply]; rw [(removeFiltered_fields e sec pt idx vals has).1]
+    simp only [AdapterSt.removeFiltered, AdapterSt.nextFault, hp, hk]
+    split <;> rfl
+
+theorem saveOk_step (e : Enforcer) (h : SaveOk e) (op : SOp) : SaveOk (op.apply e) := by
+  obtain ⟨hk, hp, has, hm⟩ := h.mem
+  have hmem : MemOk (op.apply e) := mirror_history e h.mem [op]
+  refine ⟨hmem, ?_, ?_, ?_⟩
+  · rw [adapter_step_filtered e op has hk hp]; exact h.unfiltered
+  · rcases store_step_cases e op has with h1 | ⟨mop, h1, h2⟩
+    · rw [h1]; exact h.canon
+    · rw [h1]; exact canon_congr _ _ h2 h.canon
+  · rcases store_step_cases e op has with h1 | ⟨mop, h1, _⟩
+    · rw [h1]; exact h.wf
+    · rw [h1]; exact C04.step_wf e.store h.wf mop
+
+/-- `save_policy` keeps the invariant (and re-establishes the mirror from the store) -/
+theorem saveOk_save (e : Enforcer) (h : SaveOk e) : SaveOk e.savePolicy.1 := by
+  obtain ⟨hk, hp, has, _⟩ := h.mem
+  have hsave : e.adapter.save e.store =
+      ({ e.adapter with lines := ((e.store.p ++ e.store.g).flatMap (fun d =>
+          d.policy.map (fun r => (String.ofList (d.key.toList.take 1)) :: d.key :: r))).foldl insertMove [] }, some ()) := by
+    simp only [AdapterSt.save, AdapterSt.nextFault, hp, hk, adapter_plan_nil e.adapter hp]
+  have hfields : e.savePolicy.1.store = e.store ∧ e.savePolicy.1.autoSave = e.autoSave ∧
+      e.savePolicy.1.adapter.kind = e.adapter.kind ∧ e.savePolicy.1.adapter.plan = e.adapter.plan ∧
+      e.savePolicy.1.adapter.filtered = e.adapter.filtered := by
+    unfold Enforcer.savePolicy
+    simp only [h.unfiltered, Bool.false_eq_true, if_false, hsave]
+    rw [(emit_fields _ _).1, (emit_fields _ _).2, emit_autoSave]
+    exact ⟨rfl, rfl, rfl, rfl, rfl⟩
+  obtain ⟨f1, f2, f3, f4, f5⟩ := hfields
+  refine ⟨⟨by rw [f3]; exact hk, by rw [f4]; exact hp, by rw [f2]; exact has,
+    save_establishes_mirror e hk hp h.unfiltered h.canon h.wf⟩, by rw [f5]; exact h.unfiltered,
+    by rw [f1]; exact h.canon, by rw [f1]; exact h.wf⟩
+
+/-- management calls and `save_policy` -/
+inductive FOp where
+  | mgmt (op : SOp)
+  | save
+
+def FOp.apply (e : Enforcer) : FOp → Enforcer
+  | .mgmt op => op.apply e
+  | .save => e.savePolicy.1
+
+/-- **the mirror over every history of management calls and saves** (memory adapter, auto-save on): after any
+interleaving of the five management calls — accepted, vetoed, on unknown policy types — and `save_policy`, the
+adapter holds, per policy type, exactly the stored rules in stored order -/
+theorem mirror_history_with_save (e : Enforcer) (h : SaveOk e) (ops : List FOp) : SaveOk (ops.foldl FOp.apply e) := by
+  induction ops generalizing e with
+  | nil => exact h
+  | cons op ops ih =>
+    cases op with
+    | mgmt o => exact ih _ (saveOk_step e h o)
+    | save => exact ih _ (saveOk_save e h)
+
+/-- … so a `load_policy` at any point of such a history reads back, under every policy type, the rules in memory -/
+theorem reload_after_history_with_save (e : Enforcer) (h : SaveOk e) (ops : List FOp) (sec pt : String)
+    (hex : ((ops.foldl FOp.apply e).store.find sec pt).isSome = true) :
+    (loadRecords (ops.foldl FOp.apply e).store.clear (ops.foldl FOp.apply e).adapter.records).getPolicy sec pt =
+      (ops.foldl FOp.apply e).store.getPolicy sec pt := by
+  have h' := mirror_history_with_save e h ops
+  exact reload_is_identity _ h'.mem.1 h'.mem.2.2.2 h'.wf sec pt hex
+
+/-- non-vacuity: an empty enforcer over an empty memory adapter, auto-save on -/
+def demoMem : Enforcer :=
+  { defs := ⟨[], [], []⟩, store := ⟨[{ key := "p", tokens := [], arity := 0, policy := [] }], [{ key := "g", tokens := [], arity := 2, policy := [] }]⟩,
+    adapter := AdapterSt.mk0 .memory, rm := RoleMgr.new 10, enabled := true, autoSave := true, autoBuild := true,
+    autoNotify := true, callbacks := 1, hasWatcher := false, gfuncs := [("g", 2)], userFns := [], log := [] }
+
+theorem demoMem_ok : SaveOk demoMem := by
+  refine ⟨⟨rfl, rfl, rfl, ?_⟩, rfl, ⟨by decide, by decide, by decide, by decide⟩, ?_⟩
+  · intro sec pt hex
+    have hs : (sec = "p" ∧ pt = "p") ∨ (sec = "g" ∧ pt = "g") := by
+      simp only [demoMem, Store.find, Store.sec] at hex
+      by_cases h1 : sec = "p"
+      · left; refine ⟨h1, ?_⟩
+        simp only [h1, if_true, List.find?_cons] at hex
+        by_cases h2 : ("p" : String) = pt
+        · exact h2.symm
+        · simp [h2] at hex
+      · by_cases h2 : sec = "g"
+        · right; refine ⟨h2, ?_⟩
+          simp only [h2, show ¬ ("g" : String) = "p" by decide, if_false, if_true, List.find?_cons] at hex
+          by_cases h3 : ("g" : String) = pt
+          · exact h3.symm
+          · simp [h3] at hex
+        · simp [h1, h2] at hex
+    rcases hs with ⟨rfl, rfl⟩ | ⟨rfl, rfl⟩ <;> decide
+  · intro sec pt
+    unfold Store.getPolicy Store.find
+    cases hf : (demoMem.store.sec sec).find? (·.key = pt) with
+    | none => simp
+    | some d =>
+      have hm := List.mem_of_find?_eq_some hf
+      have hd : d.policy = [] := by
+        unfold Store.sec at hm
+        split at hm
+        · simp only [demoMem, List.mem_singleton] at hm; rw [hm]
+        · split at hm
+          · simp only [demoMem, List.mem_singleton] at hm; rw [hm]
+          · cases hm
+      simp [hd]
+
+example : (([FOp.mgmt (.add "p" "p" ["alice", "data1"]), .save, .mgmt (.add "g" "g" ["alice", "admin"]), .mgmt (.remove "p" "p" ["alice", "data1"]), .save].foldl
+    FOp.apply demoMem).store.getPolicy "g" "g") = [["alice", "admin"]] := by decide
 
 end Casbin.C09
